@@ -9,6 +9,6 @@ CONSTANTS
   PutVals = {0, 1}
   AllowKeep = TRUE
   AllowReset = TRUE
-  MaxOps = 4
+  MaxOps = 3
 INVARIANTS Inv_FreeSlot Inv_Get Inv_RetIndepOfH
 CHECK_DEADLOCK FALSE
